@@ -2,7 +2,11 @@
 
 package sweeper
 
-import "context"
+import (
+	"context"
+
+	"github.com/PowerDNS/lightningstream/lmdbenv/header"
+)
 
 // VerifYield, when set, is called between write-lock slices of a sweep.
 var VerifYield func(s *Sweeper, point string)
@@ -15,3 +19,13 @@ func verifYield(s *Sweeper, point string) {
 
 // VerifSweepOnce performs a single full database sweep.
 func (s *Sweeper) VerifSweepOnce(ctx context.Context) error { return s.sweep(ctx) }
+
+// VerifCutoff, when set, replaces the wall-clock based sweep cutoff (scripted clock).
+var VerifCutoff func(s *Sweeper, ts header.Timestamp) header.Timestamp
+
+func verifCutoff(s *Sweeper, ts header.Timestamp) header.Timestamp {
+	if VerifCutoff != nil {
+		return VerifCutoff(s, ts)
+	}
+	return ts
+}
